@@ -42,6 +42,37 @@ def streams(ctx, drv, n_random, single_ops):
     return n_dis
 
 
+def import_quantifier_stream(ctx, drv, n):
+    """Import chains × the `all` quantifier × taxon patterns: where `exclude all` counts an importer as meeting a
+    taxon pattern through its imports (seeded change C04-b was missed by one seed of the generic stream)."""
+    rng = ctx.rng
+    n_dis = 0
+    for i in range(n):
+        db = filt.gen_db(rng, max_programs=5, min_programs=3, import_p=1.0, edge_p=0.5)
+        names = list(db["taxa"]) or ["a"]
+        op = rng.choice(["exclude all", "exclude all", "exclude", "include all", "exclude any"])
+        crits = []
+        for _ in range(rng.choice([2, 2, 3])):
+            r = rng.random()
+            if r < 0.7:
+                t = rng.choice(names)
+                crits.append(t if rng.random() < 0.6 else t[: rng.randint(1, len(t))])
+            elif r < 0.85:
+                crits.append(rng.choice(list(db["programs"])))
+            else:
+                crits.append(filt.gen_criterion(rng, db, "exclude", triple_p=1.0, bad_ok=False))
+        prefix = [filt.gen_command(rng, db, odd=False, bad_ok=False)] if rng.random() < 0.3 else []
+        cmds = prefix + [{"operation": op, "data": crits}]
+        eq, impl, model = filt.compare(db, cmds, drv)
+        ctx.count("import chains × all-quantifier", repr((sorted(db["programs"]), db["importations"], cmds)),
+                  nontrivial=filt.nontrivial(impl, db))
+        if not eq:
+            n_dis += 1
+            if n_dis <= 2:
+                filt.report_disagreement(ctx, "run_pipeline differs from the documented set algebra", db, cmds, drv)
+    return n_dis
+
+
 def literal_stream(ctx, drv):
     """R3: for literal patterns, the oracle, the Lean definition 'prefix up to a word boundary' and the engine agree."""
     import regex
@@ -85,6 +116,7 @@ def run(ctx):
     try:
         n = 700 if ctx.tier == "quick" else 100000
         n_dis = streams(ctx, drv, n, None)
+        n_dis += import_quantifier_stream(ctx, drv, 600 if ctx.tier == "quick" else 40000)
         n_dis += literal_stream(ctx, drv)
         parse_stream(ctx, drv)
         ctx.cov["disagreements_checked"] = n_dis
